@@ -81,7 +81,7 @@ def _helper_read_frame(lit: LineIterator) -> tuple:
     title = line.split(",")[0] if "t=" in line else line[:-1]
     time = 0.0
     if "t=" in line:
-        time = float(line.split("t=")[1]) * picosecond
+        time = float(line.split("t=")[1].split()[0]) * picosecond
     # Read the second line for number of atoms.
     natoms = int(next(lit))
     # Read the atom lines
@@ -99,9 +99,11 @@ def _helper_read_frame(lit: LineIterator) -> tuple:
         pos[i, 0] = float(words[0])
         pos[i, 1] = float(words[1])
         pos[i, 2] = float(words[2])
-        vel[i, 0] = float(words[3])
-        vel[i, 1] = float(words[4])
-        vel[i, 2] = float(words[5])
+        # The velocities are optional.
+        if len(words) >= 6:
+            vel[i, 0] = float(words[3])
+            vel[i, 1] = float(words[4])
+            vel[i, 2] = float(words[5])
     pos *= nanometer  # atom coordinates are in nanometers
     vel *= nanometer / picosecond
     # Read the cell line
